@@ -28,16 +28,30 @@ PLAN = {
 ASSUMPTIONS = ["claim restricted to the calibrated neighbourhood stated in RULE (un-damped Gauss-Newton may legitimately diverge outside); 'eventually' is decided as 'within 50 iterations'"]
 
 
+def chi2_noise(g):
+    """Rounding noise of the graph chi2 at the current state: 2 |e|^T |Omega| d + |Omega| d^2 with d = 16 eps scale per component."""
+    noise = 0.0
+    for e in g._edges:
+        er = np.abs(M.edge_ref_error(e))
+        A = np.abs(np.asarray(e.information, dtype=float))
+        d = 16 * R.EPS * O.edge_scale(e)
+        noise += 2.0 * float(er @ A @ np.ones(len(er))) * d + float(A.sum()) * d * d
+    return noise
+
+
 def convergence_check(ctx, spec, k, tol, noise_free, n_loops=0, n_lm=0, max_iter=50, where="generated", decrement=True, history_rng=None):
     """Optimize spec with the real code and decide clauses (a)-(c).  Returns (res, fin, lam2, chi_prev) or None.
     With history_rng the judged run is the *second* one on the same graph object: a first short run, then a free pose vertex is marked fixed and
-    another one is nudged (inside the neighbourhood), then the run that is judged - nothing from the first run may leak into it."""
+    another one is nudged (inside the neighbourhood), then the run that is judged (the first run is taken to convergence so that the vertex is frozen at a
+    consistent pose: freezing it at an arbitrary intermediate pose makes a large-residual problem on which un-damped Gauss-Newton may legitimately oscillate) - nothing from the first run may leak into it."""
     g = M.build(spec)
     if history_rng is not None:
         try:
-            M.quiet_optimize(g, tol=0.0, max_iter=2)
+            first = M.quiet_optimize(g, tol=1e-10, max_iter=50)
         except Exception:
             raise Skip("first run of the history raised")
+        if not first.converged:
+            raise Skip("first run of the history did not converge")
         free_pose = [v for v in g._vertices[1:] if M.kind(v.pose) == k and not v.fixed]
         if len(free_pose) >= 2:
             free_pose[int(history_rng.integers(len(free_pose)))].fixed = True
@@ -61,15 +75,12 @@ def convergence_check(ctx, spec, k, tol, noise_free, n_loops=0, n_lm=0, max_iter
     feats = {"kind": k, "noise_free": noise_free}
     fin = res.final_chi2
     ok_fin = fin is not None and math.isfinite(fin)
-    ctx.check("chi2-not-increased", ok_fin and fin <= res.initial_chi2 * (1 + 1e-9) + 1e-300, feats, {"initial": res.initial_chi2, "final": fin}, case)
+    ctx.check("chi2-not-increased", ok_fin and fin <= res.initial_chi2 * (1 + 1e-9) + chi2_noise(g), feats, {"initial": res.initial_chi2, "final": fin}, case)
     conv_ok = bool(res.converged) and res.num_iterations is not None and res.num_iterations <= max_iter
     if not conv_ok and ok_fin:
         # the stopping test compares a *relative* chi2 decrease with tol; when chi2 at the optimum is so small that its own rounding noise
         # (2 |e|^T |Omega| delta_e, delta_e ~ 16 eps scale) exceeds tol chi2, the test is decided by noise and no iteration bound can be promised
-        noise = 0.0
-        for e in g._edges:
-            er = np.abs(M.edge_ref_error(e))
-            noise += 2.0 * float(er @ np.abs(np.asarray(e.information)) @ np.ones(len(er))) * 16 * R.EPS * O.edge_scale(e)
+        noise = chi2_noise(g)
         if noise > 0.1 * tol * max(fin, 1e-300):
             ctx.skip("requested tol is below the rounding noise of chi2 at the optimum (stopping test decided by noise)")
             conv_ok = None
@@ -79,7 +90,13 @@ def convergence_check(ctx, spec, k, tol, noise_free, n_loops=0, n_lm=0, max_iter
         return None
     seq = [res.initial_chi2] + [r.chi2 for r in res.iteration_results if r.chi2 is not None]
     chi_prev = seq[-2] if len(seq) >= 2 else seq[-1]
-    H, b, chi_f, idx, nn = M.assemble(g, "ref")
+    # the independent model measures the rotational error of odometry edges with the representative of the error rotation that has w >= 0:
+    # the objective whose stationary point is claimed must be a function of the physical configuration, not of the stored quaternion signs
+    M.CONVENTION[0] = "canonical"
+    try:
+        H, b, chi_f, idx, nn = M.assemble(g, "ref")
+    finally:
+        M.CONVENTION[0] = "real"
     free = M.free_mask(g, nn, idx)
     Hf = H[np.ix_(free, free)]
     bf = b[free]
@@ -136,7 +153,7 @@ def run_case(ctx, i, rng):
     if share:
         ctx.count("class:landmarks_share_one_initial_guess_object")
     spec = gen.trajectory_graph(rng, k, n, n_loops=n_loops, n_lm=n_lm, meas_t=mt, meas_r=mr, init_t=it, init_r=ir, cond=cond, cross=bool(rng.random() < 0.7), uturn=uturn,
-                                share_landmark_guess=share)
+                                share_landmark_guess=share, q_signs=bool(rng.random() < 0.5))
     history = bool(i % 5 == 4)
     out = convergence_check(ctx, spec, k, tol, noise_free, n_loops, n_lm, history_rng=(rng if history else None))
     if out is None:
